@@ -32,6 +32,8 @@ func checkC18(c *Ctx) {
 	ruleQuotedValidated(c, "C18.f")
 	ruleContReqCancelled(c, "C18.g")
 	ruleEnabledResetOnUnauth(c, "C18.h")
+	c.rule("C18.i", "the cached capabilities are invalidated when the server may have changed them, and setCaps stores what it is given", 2)
+	ruleCapsInvalidation(c, "C18.i", []string{"startTLSCommand", "loginCommand", "authenticateCommand", "unauthenticateCommand"})
 }
 
 func capSubsets(names ...string) [][]string {
@@ -432,6 +434,41 @@ func ruleModeProvenance(c *Ctx, rule string) {
 			c.fail(rule, "beginCommand: Encoder."+f, begin.Pos(), "beginCommand no longer sets Encoder."+f)
 		}
 	}
+	// nobody else switches a mode on: any other store into these fields in the
+	// client must derive from the same capability queries
+	inBegin := map[*ssa.Function]bool{}
+	for _, g := range helperClosure(begin, 2) {
+		inBegin[g] = true
+	}
+	for _, fn := range p.SrcFuncs("imapclient") {
+		if inBegin[fn] {
+			continue
+		}
+		allInstrs(fn, func(i ssa.Instruction) {
+			st, ok := i.(*ssa.Store)
+			if !ok {
+				return
+			}
+			r, ok := fieldOf(st.Addr)
+			if !ok || r.Owner == nil || r.Owner.Obj().Name() != "Encoder" || want[r.Field.Name()] == nil {
+				return
+			}
+			d := deps(st.Val, map[ssa.Value]bool{})
+			set := map[string]bool{}
+			for _, x := range d {
+				set[x] = true
+			}
+			var got []string
+			for x := range set {
+				got = append(got, x)
+			}
+			sort.Strings(got)
+			w := append([]string{}, want[r.Field.Name()]...)
+			sort.Strings(w)
+			c.check(strings.Join(got, ",") == strings.Join(w, ","), rule, fnKey(fn)+": Encoder."+r.Field.Name(), st.Pos(),
+				"derives from "+strings.Join(got, " ∨ "), "Encoder."+r.Field.Name()+" is set outside beginCommand from {"+strings.Join(got, ",")+"} (a constant when empty), expected {"+strings.Join(w, ",")+"}: the client would use syntax the server did not advertise")
+		})
+	}
 	// the callback that creates continuation requests registers a fresh one on every call
 	reg := p.Func("imapclient", "Client", "registerContReq")
 	seen := false
@@ -561,6 +598,22 @@ func ruleValidQuoted(c *Ctx, rule string) {
 			} else {
 				c.fail(rule, key, fn.Pos(), fmt.Sprintf("validQuoted accepts=%v, a quoted string may contain this byte=%v: the client would emit syntax the server cannot parse (or that splits the command)", got, want))
 			}
+		}
+	}
+	// position classes: the forbidden bytes are refused wherever they stand
+	// (first byte, last byte, the only byte), not only in the middle
+	for _, fb := range []byte{0, '\r', '\n'} {
+		for _, pos := range []struct{ name, s string }{
+			{"first", string([]byte{fb}) + "az"}, {"last", "az" + string([]byte{fb})}, {"only", string([]byte{fb})},
+		} {
+			got, err := eval(pos.s, false)
+			key := fmt.Sprintf("validQuoted[byte=0x%02x at %s position]", fb, pos.name)
+			c.evals++
+			if err != nil {
+				c.undecided(rule, key, fn.Pos(), err.Error())
+				continue
+			}
+			c.check(!got, rule, key, fn.Pos(), "refused", fmt.Sprintf("validQuoted accepts a string whose %s byte is 0x%02x: the client would put a raw line break (or NUL) inside a quoted string and split the command", pos.name, fb))
 		}
 	}
 	for _, n := range []int{4096, 4097} {
